@@ -31,14 +31,22 @@ TECHNIQUE = 'TLA+ lattice model + TLC enumeration, spec-to-code replay, TLC trac
 # like the entries of known_findings.json (which this check does not edit).
 KNOWN = [
     dict(status='known', properties=['C15'],
-         match={'e': '^(cv|den)$', 'm': '^1$', 'lt': '^-10[4-7][0-9]$', 'oc': '^3$'},
+         match={'e': '^(cv|den)$', 'm': '^1$', 'lt': '^-10(4[5-9]|[5-7][0-9])$', 'oc': '^3$'},
          what='AuxLatitude::Convert(exact) returns NaN for denormal tangents: tan = 2^-1074 through the conformal latitude on '
               'oblate ellipsoids (tphi/2 underflows to 0 in AuxLatitude::Conformal), and |tan| below about (1-f)^2 2^-1074 '
               'on prolate ellipsoids (Newton start value underflows in FromAuxiliary)'),
     dict(status='known', properties=['C15'],
-         match={'e': '^rc$', 'fn': '^5$', '_law': '^c15-rc$', 'v': r'^\[3,'},
-         what='EllipticFunction::RJ(x, y, z, p) returns NaN for valid arguments with p many orders of magnitude below '
-              'x, y, z (1 + e0 rounds to a negative number before RC)'),
+         match={'e': '^(cv|den)$', 'm': '^1$', 'a': '^4$', 'F': '^-', 'lt': '^([89][0-9][0-9]|10[0-2][0-9])$', 'oc': '^3$'},
+         what='AuxLatitude::Convert(CONFORMAL -> any, exact) returns NaN on strongly prolate ellipsoids for tan(chi) above about '
+              '2^800: the Newton iteration of FromAuxiliary overflows tan(chi) at its first trial point'),
+    dict(status='known', properties=['C15'],
+         match={'e': '^rc$', 'fn': '^5$', 'sp': '^([7-9]|[1-9][0-9]+)$'},
+         what='EllipticFunction::RJ(x, y, z, p) loses accuracy when the arguments span many orders of magnitude and returns NaN '
+              'for valid arguments with p far below x, y, z (1 + e0 rounds to a non-positive number before RC)'),
+    dict(status='known', properties=['C15'],
+         match={'e': '^rc$', 'fn': '^3$', 'sp': '^([7-9]|[1-9][0-9]+)$'},
+         what='EllipticFunction::RG(x, y, z) is wrong when z is much smaller than x and y (cancellation in Carlson eq. 1.7: '
+              'RG(1, 2, 1e-30) = 1 instead of 0.955...), and is then not symmetric in its arguments'),
 ]
 
 
@@ -52,7 +60,7 @@ def run(ctx):
     base = ('INIT Init\nNEXT Next\nCONSTANTS RO = 43 AngRO = 22 Part = "%s" NChunks = 64 Quick = ' + q +
             '\nINVARIANTS GraphInv EllInv RcInv Emit\nCHECK_DEADLOCK FALSE\n')
     parts = [(p, base % p) for p in ('cv', 'path', 'ell')]
-    nrec = 60000 if ctx.quick else 1200000
+    nrec = 50000 if ctx.quick else 1200000
     vlib.lattice_pipeline(ctx, 'MC_AuxEll', parts, to_rows, 'drv_auxell', ['replay', vlib.NCPU],
                           ['record', ctx.seed, nrec, vlib.NCPU], 'Trace_AuxEll',
                           flavour_record=None if ctx.quick else 'san', drv_libs=['-lquadmath'])
